@@ -227,7 +227,8 @@ def capture(ctx, meta, rules, via, base, listing):
             import tomli_w
 
             data = {"server": {"host": "127.0.0.1", "port": 1965, "document_root": meta["root"]}, "rate_limit": {"enabled": False},
-                    "certificate_auth": {"paths": [dict(r) for r in rules]}}
+                    # keys whose value is the documented default may be left out of the file
+                    "certificate_auth": {"paths": [{k: v for k, v in r.items() if not (k == "require_cert" and v is False and i % 2 == 0)} for i, r in enumerate(rules)]}}
             p = os.path.join(base, "c05.toml")
             with open(p, "wb") as f:
                 tomli_w.dump(data, f)
